@@ -171,13 +171,31 @@ def make_shards(tier, purpose, nshards_per_universe=None, extra=None):
     return tasks
 
 
+def dup_variant(spec, idx):
+    """The same continuum reached by a different history: one unit is added twice (a duplicated CSV row, a merge
+    of two continua sharing a unit).  The unit sets - hence every property's oracle - are unchanged."""
+    anns = [[a, [list(u) for u in us]] for a, us in spec["annotators"]]
+    nonempty = [i for i, (_, us) in enumerate(anns) if us]
+    if not nonempty:
+        return None
+    i = nonempty[idx % len(nonempty)]
+    us = anns[i][1]
+    us.append(list(us[idx % len(us)]))
+    return {"annotators": anns}
+
+
 def iter_task_specs(task):
     from ..universe import iter_G
     if "universe" in task:
         u = task["universe"]
+        dup_every = task.get("dup_every", 0)
         for idx, spec in iter_G(u["n"], u["k"], u["T"], u["labels"], shard=task["shard"], nshards=task["nshards"],
                                 sym=u.get("sym", False), max_labels=u.get("max_labels")):
             yield spec
+            if dup_every and idx % dup_every == 0:
+                d = dup_variant(spec, idx // dup_every)
+                if d is not None:
+                    yield d
     for spec in task.get("families", []):
         yield spec
     for spec in task.get("specs", []):
